@@ -138,7 +138,7 @@ impl Prop for C01 {
         let s = (gen::node_strategy(&cfg), gen::flags_strategy("ims"), gen::raw_inputs(12, 8))
             .prop_map(|(node, flags, inputs)| AstCase { node, flags, inputs: Inputs::Raw(inputs) })
             .boxed();
-        let mut cfg2 = GenCfg::basic(&['a', 'b', 'A', '\n', '1']);
+        let mut cfg2 = GenCfg::basic(&['a', 'b', 'A', '\n', '1', 'x', 'é']);
         cfg2.w_backref = 4;
         cfg2.w_anchor = 4;
         let s2 = (gen::node_strategy(&cfg2), gen::flags_strategy("ims"), gen::raw_inputs(12, 6))
